@@ -919,6 +919,10 @@ func (x *Exec) copyLeaf(st *State, elem types.Type, key, sort, dB, dOff, sB, sOf
 		ef, fb, fi, fb, dB, dOff, fi, fi, dOff, n, nh, cur, nh))
 	st.assume(fmt.Sprintf("(forall ((j Int)) (! (=> (and (<= %s j) (< j (+ %s %s))) (= (select %s (%s %s j)) (select %s (%s %s (+ (- j %s) %s))))) :pattern ((%s %s j))))",
 		dOff, dOff, n, nh, ef, dB, cur, ef, sB, dOff, sOff, ef, dB))
+	// (3) a consequence of (1), cheap to use: objects of any other kind (fields embedded in other structs,
+	// separately allocated objects) keep their value
+	x.kindOf(ef)
+	st.assume(fmt.Sprintf("(forall ((o Int)) (! (=> (not (= (okind o) %d)) (= (select %s o) (select %s o))) :pattern ((select %s o))))", x.kindOf(ef), nh, cur, nh))
 	st.H.M[key] = nh
 }
 
